@@ -620,6 +620,28 @@ func (H) Gen(prop string, seed uint64, tier string) *hx.Case {
 			}
 		}
 	}
+	// outputs created on one branch and spent on the other: the tip A creates outputs; a child of A that spends one
+	// of them is refused (it overspends) after its inputs have been looked up; then a branch from A's parent arrives
+	// whose first block spends that very output - which does not exist on its branch - and whose second block
+	// makes it the heavier one.  The three are delivered last, in this order.
+	crossFrom := -1
+	if (prop == "C06" || prop == "C11") && r.Chance(0.15) && best.Valid() && best.Blk != nil && len(best.Blk.Txs) > 1 && int(best.Height) > cfg.plen()+1 {
+		crossFrom = len(cfg.Blocks)
+		if x, ok := m.Build(best, ledger.BlockOpts{NTx: 1, PreferHeight: best.Height, Viol: "overspend"}); ok {
+			if n := l.Add(x, 1<<40); n != nil {
+				cfg.Blocks = append(cfg.Blocks, x)
+			}
+		}
+		if b1, ok := m.Build(best.Parent, ledger.BlockOpts{NTx: 1 + r.Intn(2), PreferHeight: best.Height, ViewFrom: best}); ok {
+			if n1 := l.Add(b1, 1<<40); n1 != nil {
+				b1.Label = "spends-output-of-the-other-branch"
+				cfg.Blocks = append(cfg.Blocks, b1)
+				if b2, ok := m.Build(n1, ledger.BlockOpts{NTx: 0, ViewFrom: best.Parent}); ok && l.Add(b2, 1<<40) != nil {
+					cfg.Blocks = append(cfg.Blocks, b2)
+				}
+			}
+		}
+	}
 	// delivery schedule
 	order := make([]int, len(cfg.Blocks))
 	for i := range order {
@@ -638,6 +660,18 @@ func (H) Gen(prop string, seed uint64, tier string) *hx.Case {
 			j := r.Intn(i + 1)
 			order[i], order[j] = order[j], order[i]
 		}
+	}
+	if crossFrom >= 0 {
+		var rest, tail []int
+		for _, bi := range order {
+			if bi >= crossFrom {
+				tail = append(tail, bi)
+			} else {
+				rest = append(rest, bi)
+			}
+		}
+		sort.Ints(tail)
+		order = append(rest, tail...)
 	}
 	saveAfter := -1
 	if lightFork != nil {
@@ -674,6 +708,9 @@ func (H) Gen(prop string, seed uint64, tier string) *hx.Case {
 			continue
 		}
 		add(Op{Op: "deliver", B: bi})
+		if crossFrom >= 0 && bi >= crossFrom {
+			continue // (nothing in between)
+		}
 		if bi == saveAfter {
 			add(Op{Op: "save"})
 			add(Op{Op: "tick", Ms: 2000}) // (time for the snapshot to appear before the next block aborts it)
